@@ -32,6 +32,10 @@ PIX = {  # name: (component type, components, max, normaliser)
     "U16": ("u16", 1, 65535, 32), "U16x2": ("u16", 2, 65535, 32), "U16x3": ("u16", 3, 65535, 32),
     "U16x4": ("u16", 4, 65535, 32),
 }
+PIX_ALL = dict(PIX)
+PIX_ALL.update({"I32": ("i32", 1, 0, 0), "F32": ("f32", 1, 0, 0), "F32x2": ("f32", 2, 0, 0),
+                "F32x3": ("f32", 3, 0, 0), "F32x4": ("f32", 4, 0, 0)})
+CSIZE = {"u8": 1, "u16": 2, "i32": 4, "f32": 4}
 CPUS = ["None", "Sse4_1", "Avx2"]
 FILTERS = ["Box", "Bilinear", "Hamming", "CatmullRom", "Mitchell", "Gaussian", "Lanczos3"]
 
@@ -164,6 +168,8 @@ def emit_k(inst):
         loops.append(dw * nc)  # tail loops over the components of a row
     if inst["mode"] in ("bounded", "monotone"):
         loops.append(nsrc)
+    if inst["mode"] == "uniform":
+        loops.append(ndst)
     unwind = max(loops) + 2
     fn = {"h": "horiz", "v": "vert"}[inst["dir"]]
     flags = "stub --no-assertion-reach-checks"
@@ -345,6 +351,131 @@ def gen_c02(tier, seed):
     return {"instances": len(insts), "family": "synthetic sparse coefficient windows (sum = 2^p), residue matrix over taps/rows/offset/row width"}
 
 
+def real_insts(prop, tier, seed, pixels_quick, pixels_thorough, cpus_quick, cpus_thorough, mode, only_filters=None,
+               max_full_taps=6, t=1200, quick_geoms=None):
+    """K-level instances whose windows and integer coefficients come from the REAL float stage."""
+    G = geometries(tier, seed)
+    if only_filters:
+        G = {k: g for k, g in G.items() if g[4] in only_filters}
+    real = fstage(G)
+    quick_ids = set(quick_geoms or list(geometries("quick", seed).keys()))
+    if tier != "thorough":
+        G = {k: g for k, g in G.items() if k in quick_ids}
+    insts = []
+    skipped = []
+    for gid, g in G.items():
+        r = real[gid]
+        if not r["c16"]:
+            continue
+        for pixel in (pixels_thorough if tier == "thorough" else pixels_quick):
+            prec, bounds, coeffs = windows_for(r, pixel)
+            if any(n == 0 for _, n in bounds):
+                skipped.append((gid, pixel, "empty window"))
+                continue
+            taps = max(n for _, n in bounds)
+            nc = PIX[pixel][1]
+            for cpu in (cpus_thorough if tier == "thorough" else cpus_quick):
+                for d in ("h", "v"):
+                    tr = "quick" if (gid in quick_ids and pixel in pixels_quick and cpu in cpus_quick) else "thorough"
+                    name = "%s_%s_%s_%s_%s" % (prop.lower(), d, pixel.lower(), cpu.lower(), gid)
+                    kw = dict(t=t)
+                    if mode in ("spec", "bounded", "ref") and taps * len(bounds) * nc > max_full_taps * 4:
+                        kw["hot"] = 3
+                    if mode == "monotone" and taps * len(bounds) * nc > 12:
+                        continue  # monotone needs two full runs; only small windows
+                    if d == "h":
+                        insts.append(h_inst(prop, name, tr, pixel, cpu, prec, bounds, coeffs, 1, 0, mode, min_sw=g[0], **kw))
+                    else:
+                        cols = 1  # arithmetic properties: one column; chunked row paths are C02's job
+                        insts.append(v_inst(prop, name, tr, pixel, cpu, prec, bounds, coeffs, cols, 0, mode, **kw))
+                    insts[-1]["_gid"] = gid
+    return G, real, insts, skipped
+
+
+def gen_c10(tier, seed):
+    G, real, insts, skipped = real_insts("C10", tier, seed, ["U8", "U16"], ["U8", "U8x3", "U8x4", "U16", "U16x2", "U16x4"],
+                                         ["None", "Avx2"], CPUS, "uniform", t=1500, quick_geoms=["bil_8_3", "lan_5c_7", "box_12_2"])
+    # premise of the arithmetic lemma, checked concretely on the real chunks: sum(c) = 2^p + e, |e| * max < 2^(p-1)
+    premise = {}
+    for gid, r in real.items():
+        for key, mx in (("16", 255), ("32", 65535)):
+            p = r["p" + key]
+            worst = max((abs(sum(c) - (1 << p)) for _, c in r["c" + key]), default=0)
+            premise["%s/%s" % (gid, key)] = {"precision": p, "max_abs_e": worst, "holds": worst * mx < (1 << (p - 1))}
+    for i in insts:
+        if i["pixel"].startswith("U16"):
+            i["mem"] = 14
+            i["t"] = 2400
+            if not (i["cpu"] == "None" and i["_gid"] in ("bil_8_3", "box_12_2")):
+                i["tier"] = "thorough"
+    if tier != "thorough":
+        insts = [i for i in insts if i["tier"] == "quick"]
+    write_gen("C10", insts)
+    return {"instances": len(insts), "geometries": {k: list(v) for k, v in G.items()}, "partition_premise": premise,
+            "skipped": skipped}
+
+
+def gen_c18(tier, seed):
+    G, real, insts, skipped = real_insts("C18", tier, seed, ["U8", "U16"], ["U8", "U8x2", "U8x4", "U16", "U16x3"],
+                                         ["None", "Sse4_1"], CPUS, "bounded", only_filters=ideal.NONNEG, t=1500, quick_geoms=["bil_8_3", "ham_7_5i"])
+    G2, real2, insts2, _ = real_insts("C18", tier, seed, ["U8"], ["U8", "U16"], ["None"], ["None", "Avx2"], "monotone",
+                                      only_filters=ideal.NONNEG, t=1500, quick_geoms=["bil_8_3", "ham_7_5i"])
+    for i in insts2:
+        i["name"] = i["name"].replace("c18_", "c18m_", 1)
+    nonneg = {gid: all(c >= 0 for key in ("c16", "c32") for _, row in r[key] for c in row) for gid, r in real.items()}
+    write_gen("C18", insts + insts2)
+    return {"instances": len(insts) + len(insts2), "geometries": {k: list(v) for k, v in G.items()},
+            "all_real_coefficients_nonnegative": nonneg, "skipped": skipped}
+
+
+def gen_c01(tier, seed):
+    G, real, insts, skipped = real_insts("C01", tier, seed, ["U8", "U16"], ["U8", "U8x4", "U16", "U16x2"],
+                                         ["None"], ["None", "Sse4_1", "Avx2"], "ref", t=1800, quick_geoms=["bil_8_3", "lan_5c_7", "cat_9e_4"])
+    out = []
+    diag = {}
+    for inst in insts:
+        g = G[inst["_gid"]]
+        ct, nc, mx, norm = PIX[inst["pixel"]]
+        r = real[inst["_gid"]]
+        prec = r["p%d" % norm]
+        ref = ideal.ideal_weights(*g)
+        starts, weights, budget = [], [], []
+        bad = False
+        for x, (w, fuzzy) in enumerate(ref):
+            if fuzzy or not w:
+                bad = True
+                break
+            lo, hi = min(w), max(w)
+            # reference window must cover the real window (taps the real code uses outside it count as weight 0)
+            rs, rn = inst["bounds"][x]
+            lo, hi = min(lo, rs), max(hi, rs + rn - 1)
+            row = [int(round(w.get(i, 0.0) * (1 << 24))) for i in range(lo, hi + 1)]
+            n = len(row)
+            allowed = n * (2.0 ** -(prec + 1) + 2.0 ** -40)
+            b = int((0.5 + mx * allowed) * (1 << 24)) + mx * n // 2 + 4
+            starts.append(lo)
+            weights.append(row)
+            budget.append(b)
+            # concrete diagnostic: actual quantisation error of the real chunks
+            realrow = {rs + i: c / float(1 << prec) for i, c in enumerate(inst["coeffs"][x])}
+            e = sum(abs(realrow.get(i, 0.0) - w.get(i, 0.0)) for i in set(realrow) | set(w))
+            diag.setdefault(inst["_gid"] + "/" + str(norm), []).append(round(e * (1 << prec), 3))
+        if bad:
+            skipped.append((inst["name"], "a sample centre sits on a kernel discontinuity (ideal weight undefined)"))
+            continue
+        inst["ref_starts"], inst["ref_weights"], inst["ref_budget"] = starts, weights, budget
+        # the reference window may be wider than the real one: make the source wide enough
+        need = max(s + len(wt) for s, wt in zip(starts, weights))
+        if inst["dir"] == "h":
+            inst["sw"] = max(inst["sw"], need)
+        else:
+            inst["sh"] = max(inst["sh"], need)
+        out.append(inst)
+    write_gen("C01", out)
+    return {"instances": len(out), "geometries": {k: list(v) for k, v in G.items()},
+            "quantisation_error_in_units_of_2^-p_per_window": diag, "skipped": skipped}
+
+
 # ---------------------------------------------------------------------------------------------
 # P-level (pipeline) instances: Resizer::resize_typed with injected float stage
 # ---------------------------------------------------------------------------------------------
@@ -383,10 +514,9 @@ def pipe_keys(inst):
     l, t, cw, ch = inst.get("crop") or (0, 0, sw, sh)
     alg = inst["alg"]
     inst["_crop"] = (l, t, cw, ch)
-    if alg[0] == "Nearest":
-        return None, None
     same = (float(dw) == cw and float(dh) == ch and l == round(l) and t == round(t) and cw == round(cw) and ch == round(ch))
-    if same:
+    inst["_same"] = same
+    if same or alg[0] == "Nearest":
         return None, None
     adaptive = alg[0] != "Interpolation"
     need_h = float(dw) != cw or l != round(l)
@@ -399,7 +529,7 @@ def pipe_keys(inst):
 def emit_p(inst, real):
     """Pipeline harness.  inst: name prop tier pixel cpu sw sh dw dh crop alg alpha dst(kind,pw,ph,dl,dt,spare)
     check: 'full' (rect == spec, outside unchanged) ..."""
-    ct, nc, mx, _ = PIX[inst["pixel"]] if inst["pixel"] in PIX else (None, None, None, None)
+    ct, nc, mx, _ = PIX_ALL[inst["pixel"]]
     P = inst["pixel"]
     sw, sh, dw, dh = inst["sw"], inst["sh"], inst["dw"], inst["dh"]
     l, t, cw, ch = inst["_crop"]
@@ -427,7 +557,7 @@ def emit_p(inst, real):
             # bound shifting, buffers), not the arithmetic (decided at K level with the real
             # coefficients): keep the REAL window bounds, replace the weights by powers of two
             # summing to 2^p so that the SAT problem stays small.
-            prec = 14 if PIX[P][3] == 16 else 20
+            prec = 14 if PIX_ALL[P][3] == 16 else 20
             coeffs = []
             for _, n in bounds:
                 row = [1 << (prec - 1 - i) for i in range(n - 1)]
@@ -439,7 +569,7 @@ def emit_p(inst, real):
                 coeffs.append(row)
         taps = max(taps, max(n for _, n in bounds))
         passes[tag] = ("Some(Pass { precision: %d, bounds: %s, coeffs: %s })" % (prec, rs_bounds(bounds), rs_coeffs(coeffs)), r["window_size"])
-    size = nc * (1 if ct == "u8" else 2)
+    size = nc * CSIZE[ct]
     # scratch buffers: pre-sized (symbolic content) unless the instance asks for the growth path
     temp_px = 0
     if hk is not None and vk is not None:
@@ -472,9 +602,15 @@ def emit_p(inst, real):
         inst.get("alpha", False), hk is not None, vk is not None,
         "synthetic powers of two summing to 2^p" if inst.get("simple_coeffs", True) else "real quantised weights", unwind)
     head = "// @h %s | prop=%s | tier=%s | t=%d | mem=%d | flags=%s | enc=%s | bounds=%s | assume=x86 intrinsic models (x86_model.rs, differential-tested);coefficient windows and integer coefficients injected from a native run of the real float stage\n" % (
-        inst["name"], inst["prop"], inst["tier"], inst.get("t", 1500), inst.get("mem", 10), flags, enc, btxt)
+        inst["name"], inst["prop"], inst["tier"], inst.get("t", 1500), inst.get("mem", 8), flags, enc, btxt)
     b = []
-    b.append("let src: [%s; %d] = kani::any();" % (ct, nsrc))
+    sk = inst.get("src", ("typed_ref",))
+    if sk[0] == "cropped":
+        _, spw, sph, sl, st = sk
+        b.append("let sparent: [%s; %d] = kani::any();" % (ct, spw * sph * nc))
+        b.append("let src: [%s; %d] = extract_region(&sparent, %d, %d, %d, %d, %d, %d);" % (ct, nsrc, nc, spw, sl, st, sw, sh))
+    else:
+        b.append("let src: [%s; %d] = kani::any();" % (ct, nsrc))
     b.append("let mut dbuf: [%s; %d] = kani::any();" % (ct, ndst))
     b.append("let old = dbuf;")
     b.append("let pipe = Pipe { h: %s, v: %s, h_ws: %d, v_ws: %d };" % (passes["h"][0], passes["v"][0], passes["h"][1], passes["v"][1]))
@@ -484,7 +620,17 @@ def emit_p(inst, real):
         opts += ".crop(%s, %s, %s, %s)" % tuple(f64_rs(v) for v in inst["crop"])
     b.append("let opts = %s;" % opts)
     b.append("let res = {")
-    b.append("    let src_img = TypedImageRef::<%s>::new(%d, %d, as_pixels::<%s>(&src)).unwrap();" % (P, sw, sh, P))
+    if sk[0] == "cropped":
+        b.append("    let sparent_img = TypedImageRef::<%s>::new(%d, %d, as_pixels::<%s>(&sparent)).unwrap();" % (P, spw, sph, P))
+        b.append("    let src_img = TypedCroppedImage::from_ref(&sparent_img, %d, %d, %d, %d).unwrap();" % (sl, st, sw, sh))
+    elif sk[0] == "nested":
+        b.append("    let s0 = TypedImageRef::<%s>::new(%d, %d, as_pixels::<%s>(&src)).unwrap();" % (P, sw, sh, P))
+        b.append("    let s1 = TypedCroppedImage::from_ref(&s0, 0, 0, %d, %d).unwrap();" % (sw, sh))
+        b.append("    let src_img = TypedCroppedImage::from_ref(&s1, 0, 0, %d, %d).unwrap();" % (sw, sh))
+    elif sk[0] == "owned":
+        b.append("    let src_img = TypedImage::<%s>::from_pixels(%d, %d, as_pixels::<%s>(&src).to_vec()).unwrap();" % (P, sw, sh, P))
+    else:
+        b.append("    let src_img = TypedImageRef::<%s>::new(%d, %d, as_pixels::<%s>(&src)).unwrap();" % (P, sw, sh, P))
     if dk[0] == "cropped":
         b.append("    let mut parent = TypedImage::<%s>::from_pixels_slice(%d, %d, as_pixels_mut::<%s>(&mut dbuf)).unwrap();" % (P, pw, ph, P))
         b.append("    let mut dst_img = TypedCroppedImageMut::from_ref(&mut parent, %d, %d, %d, %d).unwrap();" % (dl, dt, dw, dh))
@@ -499,6 +645,22 @@ def emit_p(inst, real):
     b.append("};")
     b.append('assert!(res.is_ok(), "P: a valid resize returns Ok");')
     b.append('assert!(verif_api::injected_pending() == (0, 0), "P: exactly the expected passes were computed (no resampling along a dimension that matches)");')
+    if inst["alg"][0] == "Nearest" and not (hk is None and vk is None and inst.get("_same")):
+        ix, ixa, iy, iya = [], [], [], []
+        for x in range(dw):
+            f, near, alt = ideal.nearest_index(l, cw, dw, x)
+            ix.append(f)
+            ixa.append(alt if near else f)
+        for y in range(dh):
+            f, near, alt = ideal.nearest_index(t, ch, dh, y)
+            iy.append(f)
+            iya.append(alt if near else f)
+        arr = lambda v: "[" + ", ".join(str(max(0, k)) for k in v) + "]"
+        b.append("check_nearest(&dbuf, &old, %d, %d, %d, %d, %d, %d, %d, &src, %d, %d, &%s, &%s, &%s, &%s);" % (
+            nc, pw, ph, dl, dt, dw, dh, sw, sh, arr(ix), arr(ixa), arr(iy), arr(iya)))
+        inst["_nearest_idx"] = (ix, iy)
+        return head + "x86_proof! {\n    #[kani::unwind(%d)]\n    pub fn %s() {\n        %s\n    }\n}\n" % (
+            unwind, inst["name"], "\n        ".join(b))
     ntmp = max(sw * dh, dw * sh) * nc
     b.append("let mut ea = [0i64; %d];" % (dw * dh * nc))
     b.append("let mut eb = [0i64; %d];" % (dw * dh * nc))
@@ -542,6 +704,362 @@ def gen_c05(tier, seed):
     # 16-bit two-pass, exact buffer
     add("conv2_u16_none_exact", "quick", "U16", "None", 3, 3, 2, 2, None, ("Convolution", "Bilinear"), ("exact",))
     write = finish_p("C05", insts)
+    return {"instances": len(insts)}
+
+
+def gen_c06(tier, seed):
+    """Instances of c06::run_case.  One symbolic pixel at a symbolic position; alpha axis of the
+    16-bit divide is sliced (a 65536-entry table with a symbolic index did not finish whole)."""
+    chunk = {("U8x4", "Sse4_1"): 4, ("U8x4", "Avx2"): 8, ("U8x2", "Sse4_1"): 8, ("U8x2", "Avx2"): 16,
+             ("U16x2", "Sse4_1"): 4, ("U16x2", "Avx2"): 8, ("U16x4", "Sse4_1"): 2, ("U16x4", "Avx2"): 4}
+    lines = []
+    rnd = random.Random(4242 + seed)
+    n_inst = 0
+    slices_quick = [0, 1, 255] + sorted(rnd.sample(range(2, 255), 2))
+    for P in ("U8x2", "U8x4", "U16x2", "U16x4"):
+        N = PIX[P][1]
+        wide = PIX[P][3] == 32
+        mx = PIX[P][2]
+        for cpu in CPUS:
+            K = 2 if cpu == "None" else chunk[(P, cpu)] + 1
+            for op in ("MulInplace", "Mul", "DivInplace", "Div"):
+                quick_op = op in ("MulInplace", "Div") if cpu != "None" else True
+                is_div = op.startswith("Div")
+                if wide and is_div:
+                    if cpu == "None":
+                        sl = range(256) if tier == "thorough" else slices_quick
+                        if op == "Div" and tier != "thorough":
+                            sl = [0]
+                    else:
+                        # SIMD divide has no table: try a few wide slices
+                        sl = [(0, 65535)] if tier == "thorough" else [(0, 255), (65280, 65535)]
+                    for k in sl:
+                        lo, hi = (k * 256, k * 256 + 255) if isinstance(k, int) else k
+                        name = "c06_%s_%s_%s_a%d_%d" % (P.lower(), cpu.lower(), op.lower(), lo, hi)
+                        tr = "quick" if (isinstance(k, int) and k in slices_quick and quick_op) or (not isinstance(k, int) and tier != "thorough" and quick_op) else "thorough"
+                        lines.append((name, tr, P, K, N, cpu, op, lo, hi))
+                else:
+                    name = "c06_%s_%s_%s" % (P.lower(), cpu.lower(), op.lower())
+                    tr = "quick" if quick_op else "thorough"
+                    lines.append((name, tr, P, K, N, cpu, op, 0, mx))
+    src = ["//! generated by gen/pregen.py -- do not edit, not committed", "#![allow(unused_imports)]",
+           "use crate::c06::*;", "use fast_image_resize::pixels::*;", "use fast_image_resize::CpuExtensions;", ""]
+    for (name, tr, P, K, N, cpu, op, lo, hi) in lines:
+        if tier != "thorough" and tr != "quick":
+            continue
+        n_inst += 1
+        enc = "MulDiv::%s_typed::<%s> -> AlphaMulDiv impl, alpha::%s::{%s} kernels (%s), alpha::common::{mul_div_*, div_and_clip*, RECIP_ALPHA*}" % (
+            {"MulInplace": "multiply_alpha_inplace", "Mul": "multiply_alpha", "DivInplace": "divide_alpha_inplace", "Div": "divide_alpha"}[op],
+            P, P.lower(), "native" if cpu == "None" else cpu.lower(), cpu)
+        bnd = "symbolic: one pixel (all %d components, alpha in %d..=%d) at a symbolic position of a 1x%d row; other pixels fixed; enumerated: %s %s %s; unwind %d" % (
+            N, lo, hi, K, P, cpu, op, K * N + 2)
+        src.append("// @h %s | prop=C06 | tier=%s | t=1500 | mem=10 | flags=stub --no-assertion-reach-checks | enc=%s | bounds=%s | assume=x86 intrinsic models (x86_model.rs, differential-tested)" % (name, tr, enc, bnd))
+        src.append("c06!(%s, %s, %d, %d, %s, %s, %d, %d, %d);" % (name, P, K, N, cpu, op, lo, hi, K * N + 2))
+    (KH / "src" / "gen_c06.rs").write_text("\n".join(src) + "\n")
+    return {"instances": n_inst, "alpha_slices_quick_16bit_divide": slices_quick}
+
+
+def p_add(insts, prop, name, tr, pixel, cpu, sw, sh, dw, dh, crop, alg, dst=("exact",), **kw):
+    insts.append(dict(name="%s_%s" % (prop.lower(), name), prop=prop, tier=tr, pixel=pixel, cpu=cpu, sw=sw, sh=sh, dw=dw, dh=dh,
+                      crop=crop, alg=alg, dst=dst, **kw))
+
+
+def gen_c11(tier, seed):
+    insts = []
+    N = ("Nearest",)
+    p_add(insts, "C11", "u8_up_crop", "quick", "U8", "None", 4, 3, 5, 4, (0.5, 0.25, 3.0, 2.5), N)
+    p_add(insts, "C11", "u8x3_down_edge", "quick", "U8x3", "None", 5, 4, 2, 2, (2.5, 1.5, 2.5, 2.5), N, ("cropped", 4, 4, 1, 1))
+    p_add(insts, "C11", "f32_subpixel_edge", "quick", "F32", "None", 4, 4, 3, 2, (3.75, 3.5, 0.25, 0.5), N)
+    p_add(insts, "C11", "u16x2_whole", "quick", "U16x2", "None", 3, 5, 4, 2, None, N, ("long", 3))
+    if tier == "thorough":
+        rnd = random.Random(77 + seed)
+        types = list(PIX_ALL)
+        for k in range(14):
+            sw, sh, dw, dh = rnd.randint(1, 6), rnd.randint(1, 6), rnd.randint(1, 7), rnd.randint(1, 7)
+            kind = k % 4
+            if kind == 0:
+                crop = None
+            elif kind == 1:
+                l, t = rnd.randint(0, sw - 1), rnd.randint(0, sh - 1)
+                crop = (l, t, sw - l, sh - t)
+            elif kind == 2:
+                l = rnd.choice([0.25, 0.5, 0.75]) if sw > 1 else 0.25
+                t = rnd.choice([0.125, 0.5]) if sh > 1 else 0.5
+                crop = (l, t, sw - l - rnd.choice([0, 0.25]) if sw - l > 0.5 else sw - l, sh - t)
+            else:
+                crop = (sw - 0.375, sh - 0.25, 0.375, 0.25)   # sub-pixel box flush with the far corner
+            p_add(insts, "C11", "t%d_%s" % (k, types[k % 13].lower()), "thorough", types[k % 13], "None", sw, sh, dw, dh, crop, N)
+    finish_p("C11", insts)
+    return {"instances": len(insts), "indices": {i["name"]: i.get("_nearest_idx") for i in insts}}
+
+
+def gen_c12(tier, seed):
+    insts = []
+    # same size as an integer crop: every algorithm must be an exact copy
+    p_add(insts, "C12", "copy_u8x4_conv", "quick", "U8x4", "None", 4, 4, 2, 3, (1, 1, 2, 3), ("Convolution", "Lanczos3"), ("cropped", 4, 4, 1, 0))
+    p_add(insts, "C12", "copy_f32x3_ss", "quick", "F32x3", "None", 3, 3, 3, 3, None, ("SuperSampling", "Bilinear", 2))
+    p_add(insts, "C12", "copy_u16_nearest_alpha", "quick", "U16x2", "Sse4_1", 3, 2, 2, 2, (1, 0, 2, 2), ("Nearest",), alpha=True)
+    # one matching dimension: no resampling along it
+    p_add(insts, "C12", "width_same_u8", "quick", "U8", "None", 3, 4, 3, 2, None, ("Convolution", "Bilinear"))
+    p_add(insts, "C12", "height_same_u16_crop", "quick", "U16", "None", 5, 4, 2, 2, (1, 1, 4, 2), ("Interpolation", "Bilinear"))
+    if tier == "thorough":
+        k = 0
+        for pixel in PIX_ALL:
+            alg = [("Convolution", "Box"), ("Interpolation", "CatmullRom"), ("SuperSampling", "Hamming", 1), ("Nearest",)][k % 4]
+            p_add(insts, "C12", "copy_t_%s" % pixel.lower(), "thorough", pixel, ["None", "Sse4_1", "Avx2"][k % 3], 4, 3, 3, 2,
+                  (1, 1, 3, 2), alg, ("long", 2) if k % 2 else ("exact",), alpha=(k % 2 == 0))
+            k += 1
+        p_add(insts, "C12", "width_same_u8x4_avx2", "thorough", "U8x4", "Avx2", 2, 5, 2, 3, (0, 1, 2, 4), ("Convolution", "Bilinear"))
+        p_add(insts, "C12", "height_same_u16x3_sse4", "thorough", "U16x3", "Sse4_1", 5, 2, 3, 2, None, ("Convolution", "Hamming"))
+    finish_p("C12", insts)
+    return {"instances": len(insts)}
+
+
+def gen_c13(tier, seed):
+    insts = []
+    C = ("Convolution", "Bilinear")
+    # same logical operation (4x3 -> 2x2) through different containers / placements
+    p_add(insts, "C13", "src_cropped_interior_u8", "quick", "U8", "None", 4, 3, 2, 2, None, C, ("exact",), src=("cropped", 6, 5, 1, 1))
+    p_add(insts, "C13", "src_cropped_flush_u8x4_sse4", "quick", "U8x4", "Sse4_1", 4, 3, 2, 2, None, C, ("cropped", 4, 3, 2, 1), src=("cropped", 5, 4, 1, 1))
+    p_add(insts, "C13", "src_nested_u16x2", "quick", "U16x2", "None", 4, 3, 2, 2, None, C, ("long", 2), src=("nested",))
+    p_add(insts, "C13", "src_owned_f32_nearest", "quick", "F32", "None", 4, 3, 2, 2, None, ("Nearest",), ("cropped", 3, 3, 1, 1), src=("owned",))
+    if tier == "thorough":
+        p_add(insts, "C13", "src_cropped_flush_u8x3_avx2", "thorough", "U8x3", "Avx2", 4, 3, 2, 2, None, C, ("exact",), src=("cropped", 5, 4, 1, 1))
+        p_add(insts, "C13", "src_cropped_u16_avx2", "thorough", "U16", "Avx2", 4, 3, 2, 2, (0.5, 0, 3, 3), C, ("cropped", 4, 4, 1, 2), src=("cropped", 6, 4, 2, 1))
+        p_add(insts, "C13", "src_owned_u8x2", "thorough", "U8x2", "Sse4_1", 4, 3, 2, 2, None, C, ("exact",), src=("owned",))
+        p_add(insts, "C13", "src_cropped_u16x4_nearest", "thorough", "U16x4", "None", 3, 3, 4, 2, (0.5, 0.5, 2, 2), ("Nearest",), ("exact",), src=("cropped", 4, 5, 1, 2))
+    finish_p("C13", insts)
+    return {"instances": len(insts)}
+
+
+def gen_c03(tier, seed):
+    """Memory safety / panic freedom: the same harness families with ALL default checks on
+    (pointer validity against exact allocation extents, overflow, unreachable, unwrap)."""
+    insts = []
+    N = ("Nearest",)
+    # nearest with sub-pixel crop boxes flush against the right/bottom edge (table index in range)
+    p_add(insts, "C03", "nearest_edge_flush_u8", "quick", "U8", "None", 4, 3, 1, 1, (3.9999998, 2.5, 0.0000002, 0.5), N, checks=True)
+    p_add(insts, "C03", "nearest_edge_flush_u16x3", "quick", "U16x3", "None", 3, 2, 2, 2, (2.75, 1.75, 0.25, 0.25), N, ("cropped", 3, 3, 1, 1), checks=True)
+    p_add(insts, "C03", "conv_1px_u8x4_sse4", "quick", "U8x4", "Sse4_1", 1, 1, 2, 2, None, ("Convolution", "Lanczos3"), checks=True)
+    p_add(insts, "C03", "conv_edge_subpixel_u8", "quick", "U8", "None", 4, 4, 1, 2, (3.5, 0, 0.5, 4), ("Convolution", "Bilinear"), checks=True)
+    if tier == "thorough":
+        p_add(insts, "C03", "conv_1px_u16_avx2", "thorough", "U16", "Avx2", 1, 1, 3, 1, None, ("Convolution", "CatmullRom"), checks=True)
+        p_add(insts, "C03", "conv_strided_u8x3_avx2", "thorough", "U8x3", "Avx2", 4, 3, 2, 2, None, ("Convolution", "Bilinear"), ("cropped", 4, 3, 2, 1), src=("cropped", 5, 4, 1, 1), checks=True)
+        p_add(insts, "C03", "interp_u16x4_sse4", "thorough", "U16x4", "Sse4_1", 3, 3, 2, 2, (0.5, 0.5, 2.5, 2.5), ("Interpolation", "Mitchell"), checks=True)
+        p_add(insts, "C03", "nearest_grow_f32x4", "thorough", "F32x4", "None", 2, 2, 3, 3, (0.5, 0.5, 1.5, 1.5), N, checks=True)
+    real = finish_p("C03", insts)
+    # K-level kernels with all checks on, buffers ending exactly at the last pixel
+    kinsts = []
+    k = 0
+    for pixel in PIX:
+        wide = PIX[pixel][3] == 32
+        for cpu in CPUS:
+            quick = (pixel, cpu) in {("U8x4", "Avx2"), ("U8", "Sse4_1"), ("U16x2", "Avx2"), ("U8x3", "None"), ("U16", "None"), ("U8x2", "Sse4_1")}
+            if tier != "thorough" and not quick:
+                continue
+            p = (16 if not wide else 32)
+            k += 1
+            taps = [4, 3]
+            bounds, coeffs = [(0, 4), (2, 3)], [sparse_coeffs(4, p, wide, k), sparse_coeffs(3, p, wide, k + 1)]
+            kinsts.append(h_inst("C03", "c03_kh_%s_%s" % (pixel.lower(), cpu.lower()), "quick" if quick else "thorough", pixel, cpu, p,
+                                 bounds, coeffs, 5, 1, "spec", checks=True, hot=2, t=1800))
+            nc = PIX[pixel][1]
+            cols = {1: 9, 2: 5, 3: 3, 4: 3}[nc] if not wide else {1: 5, 2: 3, 3: 2, 4: 2}[nc]
+            kinsts.append(v_inst("C03", "c03_kv_%s_%s" % (pixel.lower(), cpu.lower()), "quick" if quick else "thorough", pixel, cpu, p,
+                                 bounds, coeffs, cols, 1, "spec", checks=True, hot=2, t=1800))
+    # window invariant of the real float stage for the enumerated (edge) geometries, checked concretely
+    G = geometries("thorough", seed)
+    G.update({"edge_sub": (6, 5.9999, 6, 2, "Lanczos3", True), "edge_den": (5, 4.0, 4.000000001, 3, "Bilinear", True),
+              "one_px": (1, 0, 1, 5, "Gaussian", True), "tiny_crop": (9, 3.3, 3.3000001, 1, "CatmullRom", True)})
+    realg = fstage(G)
+    inv = {}
+    for gid, r in realg.items():
+        ok = True
+        for key, lim in (("16", 1 << 15), ("32", 1 << 31)):
+            p = r["p" + key]
+            for st, c in r["c" + key]:
+                if st + len(c) > G[gid][0] or any(abs(v) >= lim for v in c) or not (1 <= p <= (21 if key == "16" else 45)) or p == 11:
+                    ok = False
+                if sum(abs(v) for v in c) >= 4 * (1 << p):
+                    ok = False
+        inv[gid] = ok
+    extra = "".join(emit_k(i) for i in kinsts)
+    path = KH / "src" / "gen_c03.rs"
+    path.write_text(path.read_text() + "\n" + extra)
+    return {"instances": len(insts) + len(kinsts), "window_invariant_holds": inv, "all_invariants_hold": all(inv.values())}
+
+
+def emit_rel(inst, real):
+    """Relational pipeline harness: two runs of resize_typed whose results must coincide.
+    kind 'alpha_hidden' (C07): sources differ only in colour under alpha = 0.
+    kind 'alpha_opaque' (C07): all alpha = max, run with use_alpha(true) vs use_alpha(false).
+    kind 'reuse' (C09): fresh Resizer vs Resizer with arbitrary scratch state."""
+    ct, nc, mx, _ = PIX_ALL[inst["pixel"]]
+    P = inst["pixel"]
+    sw, sh, dw, dh = inst["sw"], inst["sh"], inst["dw"], inst["dh"]
+    l, t, cw, ch = inst["_crop"]
+    hk, vk = inst["_hk"], inst["_vk"]
+    nsrc, ndst = sw * sh * nc, dw * dh * nc
+    size = nc * CSIZE[ct]
+    passes, taps = {}, 1
+    for tag, key in (("h", hk), ("v", vk)):
+        if key is None:
+            passes[tag] = ("None", 0)
+            continue
+        r = real[inst["_ids"][tag]]
+        prec, bounds, coeffs = windows_for(r, P)
+        prec = 14 if PIX_ALL[P][3] == 16 else 20
+        coeffs = []
+        for _, n in bounds:
+            row = [1 << (prec - 1 - i) for i in range(n - 1)]
+            row.append((1 << prec) - sum(row))
+            if n >= 2 and prec - n - 1 >= 0:
+                d = 1 << (prec - n - 1)
+                row[0] += d
+                row[-1] -= d
+            coeffs.append(row)
+        taps = max(taps, max(n for _, n in bounds))
+        passes[tag] = ("Some(Pass { precision: %d, bounds: %s, coeffs: %s })" % (prec, rs_bounds(bounds), rs_coeffs(coeffs)), r["window_size"])
+    temp_px = 0
+    if hk is not None and vk is not None:
+        if ct == "u8":
+            hb = real[inst["_ids"]["h"]]["c16"]
+            temp_px = (hb[-1][0] + len(hb[-1][1]) - hb[0][0]) * dh
+        else:
+            vb = real[inst["_ids"]["v"]]["c32"]
+            temp_px = dw * (vb[-1][0] + len(vb[-1][1]) - vb[0][0])
+    conv_bytes = temp_px * size + size if temp_px else 0
+    alpha_bytes = sw * sh * size + size if inst.get("alpha", True) and nc in (2, 4) else 0
+    kind = inst["kind"]
+    extra = inst.get("scratch_extra", 0)
+    loops = [taps, sw, sh, dw, dh, nc, nsrc // nc, ndst]
+    if kind == "reuse":
+        loops += [conv_bytes, alpha_bytes]
+    unwind = max(loops) + 2
+    flags = "stub --no-assertion-reach-checks --no-memory-safety-checks --no-overflow-checks"
+    enc = "Resizer::resize_typed x2 -> resample_convolution (alpha premultiply into scratch, do_convolution, divide in place), MulDiv::{multiply_alpha_typed, divide_alpha_inplace_typed}, get_temp_image_from_buffer, %s kernels (%s)" % (P, inst["cpu"])
+    btxt = "symbolic: all %d source components (%s), all destination components; enumerated: %s %s src %dx%d crop %s dst %dx%d alg %s; real window bounds, synthetic power-of-two weights; unwind %d" % (
+        nsrc, {"alpha_hidden": "plus a second colour set used only under alpha = 0", "alpha_opaque": "alpha forced to max",
+               "reuse": "plus symbolic content of the three scratch buffers (%d/%d bytes)" % (alpha_bytes + extra, conv_bytes + extra)}[kind],
+        P, inst["cpu"], sw, sh, inst.get("crop"), dw, dh, "/".join(str(a) for a in inst["alg"]), unwind)
+    head = "// @h %s | prop=%s | tier=%s | t=%d | mem=%d | flags=%s | enc=%s | bounds=%s | assume=x86 intrinsic models (x86_model.rs, differential-tested);coefficient windows injected from a native run of the real float stage\n" % (
+        inst["name"], inst["prop"], inst["tier"], inst.get("t", 2400), inst.get("mem", 8), flags, enc, btxt)
+    opts = "ResizeOptions::new().resize_alg(%s)" % alg_rs(inst["alg"])
+    if inst.get("crop"):
+        opts += ".crop(%s, %s, %s, %s)" % tuple(f64_rs(v) for v in inst["crop"])
+    b = []
+    b.append("let pipe = Pipe { h: %s, v: %s, h_ws: %d, v_ws: %d };" % (passes["h"][0], passes["v"][0], passes["h"][1], passes["v"][1]))
+    b.append("let a: [%s; %d] = kani::any();" % (ct, nsrc))
+    b.append("let mut da: [%s; %d] = kani::any();" % (ct, ndst))
+    b.append("let mut db: [%s; %d] = kani::any();" % (ct, ndst))
+    scratch = "resizer_with_scratch::<%d, %d, 0>(CpuExtensions::%s)" % (alpha_bytes + extra, conv_bytes + extra, inst["cpu"])
+    if kind == "alpha_hidden":
+        b.append("let c: [%s; %d] = kani::any();" % (ct, nsrc))
+        b.append("let b = hide_under_zero_alpha(&a, &c, %d);" % nc)
+        b.append("let opts = %s.use_alpha(true);" % opts)
+        b.append("let mut rz = %s;" % scratch)
+        b.append("pipe.inject::<%s>();" % P)
+        b.append('assert!(run_resize::<%s>(&mut rz, &a, %d, %d, &mut da, %d, %d, &opts), "P: a valid resize returns Ok");' % (P, sw, sh, dw, dh))
+        b.append("pipe.inject::<%s>();" % P)
+        b.append('assert!(run_resize::<%s>(&mut rz, &b, %d, %d, &mut db, %d, %d, &opts), "P: a valid resize returns Ok");' % (P, sw, sh, dw, dh))
+        b.append('check_same(&da, &db, "");')
+        # zero alpha => zero colour; alpha channel resampled as a plain channel
+        b.append("let mut ea = [0i64; %d];" % ndst)
+        b.append("let mut eb = [0i64; %d];" % ndst)
+        b.append("let mut tmp = [W(0); %d];" % (max(sw * dh, dw * sh) * nc))
+        b.append("spec_pipeline(&a, %d, %d, %d, %d, %d, %d, %d, &pipe, true, &mut ea, &mut tmp);" % (sw, sh, nc, dw, dh, int(l), int(t)))
+        b.append("spec_pipeline(&a, %d, %d, %d, %d, %d, %d, %d, &pipe, false, &mut eb, &mut tmp);" % (sw, sh, nc, dw, dh, int(l), int(t)))
+        b.append("let mut p = 0;")
+        b.append("while p < %d {" % (dw * dh))
+        b.append("    let al = da[p * %d + %d] as i64;" % (nc, nc - 1))
+        b.append('    assert!(al == ea[p * %d + %d] || al == eb[p * %d + %d], "C07: the alpha channel is resampled as a plain channel");' % (nc, nc - 1, nc, nc - 1))
+        b.append("    let mut k = 0;")
+        b.append("    while k < %d {" % (nc - 1))
+        b.append('        assert!(al != 0 || da[p * %d + k] == 0, "C07: a destination pixel with alpha zero has zero colour");' % nc)
+        b.append("        k += 1;")
+        b.append("    }")
+        b.append("    p += 1;")
+        b.append("}")
+    elif kind == "alpha_opaque":
+        b.append("let mut s = a;")
+        b.append("let mut p = 0;")
+        b.append("while p < %d { s[p * %d + %d] = %d; p += 1; }" % (sw * sh, nc, nc - 1, mx))
+        b.append("let mut rz = %s;" % scratch)
+        b.append("let o1 = %s.use_alpha(true);" % opts)
+        b.append("let o2 = %s.use_alpha(false);" % opts)
+        b.append("pipe.inject::<%s>();" % P)
+        b.append('assert!(run_resize::<%s>(&mut rz, &s, %d, %d, &mut da, %d, %d, &o1), "P: a valid resize returns Ok");' % (P, sw, sh, dw, dh))
+        b.append("pipe.inject::<%s>();" % P)
+        b.append('assert!(run_resize::<%s>(&mut rz, &s, %d, %d, &mut db, %d, %d, &o2), "P: a valid resize returns Ok");' % (P, sw, sh, dw, dh))
+        b.append('check_same(&da, &db, "");')
+    else:  # reuse
+        b.append("let opts = %s.use_alpha(%s);" % (opts, "true" if inst.get("alpha", True) else "false"))
+        b.append("let mut fresh = new_resizer(CpuExtensions::%s);" % inst["cpu"])
+        b.append("let mut used = %s;" % scratch)
+        b.append("pipe.inject::<%s>();" % P)
+        b.append('assert!(run_resize::<%s>(&mut fresh, &a, %d, %d, &mut da, %d, %d, &opts), "P: a valid resize returns Ok");' % (P, sw, sh, dw, dh))
+        b.append("pipe.inject::<%s>();" % P)
+        b.append('assert!(run_resize::<%s>(&mut used, &a, %d, %d, &mut db, %d, %d, &opts), "P: a valid resize returns Ok");' % (P, sw, sh, dw, dh))
+        b.append('check_same(&da, &db, "");')
+    return head + "x86_proof! {\n    #[kani::unwind(%d)]\n    pub fn %s() {\n        %s\n    }\n}\n" % (
+        unwind, inst["name"], "\n        ".join(b))
+
+
+def finish_rel(prop, insts):
+    geoms = {}
+    for inst in insts:
+        hk, vk = pipe_keys(inst)
+        inst["_hk"], inst["_vk"] = hk, vk
+        inst["_ids"] = {}
+        for tag, key in (("h", hk), ("v", vk)):
+            if key is not None:
+                if key not in geoms.values():
+                    geoms["g%d" % len(geoms)] = key
+                inst["_ids"][tag] = [k for k, v in geoms.items() if v == key][0]
+    real = fstage(geoms) if geoms else {}
+    src = PHEADER + "\n".join(emit_rel(i, real) for i in insts)
+    (KH / "src" / ("gen_%s.rs" % prop.lower())).write_text(src)
+
+
+def gen_c07(tier, seed):
+    insts = []
+    B = ("Convolution", "Bilinear")
+    def add(name, tr, kind, pixel, cpu, sw, sh, dw, dh, crop, alg=B, **kw):
+        insts.append(dict(name="c07_" + name, prop="C07", tier=tr, kind=kind, pixel=pixel, cpu=cpu, sw=sw, sh=sh, dw=dw, dh=dh,
+                          crop=crop, alg=alg, **kw))
+    # crop strictly inside the row: the filter window reaches pixels outside the crop box
+    add("hidden_u8x2_crop", "quick", "alpha_hidden", "U8x2", "None", 4, 1, 1, 1, (1, 0, 2, 1))
+    add("hidden_u8x4_v", "quick", "alpha_hidden", "U8x4", "None", 1, 3, 1, 2, None)
+    add("opaque_u8x2", "quick", "alpha_opaque", "U8x2", "None", 3, 1, 2, 1, None)
+    add("opaque_u16x2", "quick", "alpha_opaque", "U16x2", "None", 3, 1, 2, 1, None)
+    if tier == "thorough":
+        add("hidden_u16x2_crop", "thorough", "alpha_hidden", "U16x2", "None", 4, 1, 1, 1, (1, 0, 2, 1))
+        add("hidden_u8x4_sse4", "thorough", "alpha_hidden", "U8x4", "Sse4_1", 3, 1, 2, 1, None)
+        add("hidden_u8x2_2pass", "thorough", "alpha_hidden", "U8x2", "None", 2, 2, 1, 1, None)
+        add("opaque_u8x4_avx2", "thorough", "alpha_opaque", "U8x4", "Avx2", 3, 1, 2, 1, None)
+        add("opaque_u16x4", "thorough", "alpha_opaque", "U16x4", "None", 1, 3, 1, 2, None)
+        add("hidden_u8x2_interp", "thorough", "alpha_hidden", "U8x2", "None", 4, 1, 2, 1, (1, 0, 2.5, 1), alg=("Interpolation", "Bilinear"))
+    finish_rel("C07", insts)
+    return {"instances": len(insts)}
+
+
+def gen_c09(tier, seed):
+    insts = []
+    B = ("Convolution", "Bilinear")
+    def add(name, tr, pixel, cpu, sw, sh, dw, dh, crop, alg=B, **kw):
+        insts.append(dict(name="c09_" + name, prop="C09", tier=tr, kind="reuse", pixel=pixel, cpu=cpu, sw=sw, sh=sh, dw=dw, dh=dh,
+                          crop=crop, alg=alg, **kw))
+    # alpha scratch with stale content, crop away from the edges, vertical down-scale x4 (window leaves the crop)
+    add("alpha_u8x2_crop_v", "quick", "U8x2", "None", 1, 10, 1, 1, (0, 3, 1, 4))
+    # two-pass without alpha: intermediate-pass scratch, exact and over-sized
+    add("conv2_u8_exact", "quick", "U8", "None", 3, 3, 2, 2, None, alpha=False)
+    add("conv2_u16_larger", "quick", "U16", "None", 3, 3, 2, 2, None, alpha=False, scratch_extra=3)
+    if tier == "thorough":
+        add("alpha_u16x2_crop_h", "thorough", "U16x2", "None", 10, 1, 1, 1, (3, 0, 4, 1))
+        add("conv2_u8x3_larger", "thorough", "U8x3", "None", 3, 3, 2, 2, None, alpha=False, scratch_extra=5)
+        add("alpha_u8x4_sse4", "thorough", "U8x4", "Sse4_1", 3, 2, 2, 1, None)
+        add("conv2_u16x2_avx2", "thorough", "U16x2", "Avx2", 3, 3, 2, 2, None, alpha=False, scratch_extra=2)
+    finish_rel("C09", insts)
     return {"instances": len(insts)}
 
 
